@@ -239,6 +239,42 @@ def run(chk, facts, info):
              '(AdrCnt, CodeLen, BAsmCode, ...) only if the module itself or a core module assigns it: an encoding must '
              'not be built from what another target\'s generator left behind', min_instances=40)
     foreign_scratch_rule(chk, facts.program('asl'), 'C14-R5', only=set(FILES), min_instances=900)
+    chk.rule('C14-R8', 'in the seven code generators a displacement-overflow test does not compare just the sign bits of x and '
+             'x +/- k ("(x & S) != (y & S)" with y = x - k): that also fires when x only changes sign through zero, i.e. for '
+             'the legal displacements 0..k-1 (today no such test exists; the reversed repair of MSP430 RLA/RLC is the positive '
+             'example in the seeded-break corpus)', min_instances=0)
+    for fn in FILES:
+        u = facts.unit(fn)
+        for f in u.funcs.values():
+            if f.file != fn:
+                continue
+            for b, i, ln, m in f.nodes():
+                if not (m[0] == 'b' and m[1] in ('!=', '==')):
+                    continue
+                l_, r_ = nocast(m[2]), nocast(m[3])
+                if not (l_[0] == 'b' and l_[1] == '&' and r_[0] == 'b' and r_[1] == '&'):
+                    continue
+                ml, mr = const_val(l_[3]), const_val(r_[3])
+                if ml is None or ml != mr or ml <= 0 or (ml & (ml - 1)) != 0:
+                    continue
+                a, c = strip(l_[2]), strip(r_[2])
+                # is one of them defined as the other +/- a constant?
+                derived = False
+                for x, y in ((a, c), (c, a)):
+                    if x[0] != 'l':
+                        continue
+                    for b2, i2, l2, d in f.nodes():
+                        rhs = None
+                        if d[0] == 'decl' and d[1] == x[1] and d[2] is not None:
+                            rhs = nocast(d[2])
+                        elif is_assign(d) and d[1] == '=' and strip(d[2]) == x:
+                            rhs = nocast(d[3])
+                        if rhs is not None and rhs[0] == 'b' and rhs[1] in ('+', '-') and strip(rhs[2]) == y and const_val(rhs[3]) is not None:
+                            derived = True
+                if derived:
+                    chk.ob('C14-R8', '%s:%s:sign-compare@%d' % (fn, f.name, ln), False, f.loc(ln),
+                           'the overflow test %s compares only sign bits of a value and the same value shifted by a constant: it '
+                           'rejects the legal displacements next to zero ("rla $+2")' % show(m)[:80])
     chk.rule('C14-R7', 'code65.c: every variable that receives "target - (EProgCounter() + k)" is 16 bits wide, so that the '
              'distance of a relative branch is taken modulo the 64K address space like the processor does (a branch from '
              '$FFF0 to $0005 is +$13, not -$FFED)', min_instances=3)
